@@ -8,6 +8,9 @@ func (r *Row) UnmarshalJSON(b []byte) (err error) {
 	*r = make(map[string]interface{})
 	var raw map[string]interface{}
 	err = unmarshalExact(b, &raw)
+	if err != nil {
+		return err
+	}
 	for key, val := range raw {
 		val, err = ovsSliceToGoNotation(val)
 		if err != nil {
